@@ -451,7 +451,8 @@ func (c *Conn) loadSession(hello *clientHelloMsg) (
 	// valid for the ServerName. This should be ensured by the cache key, but
 	// protect the application from a faulty ClientSessionCache implementation.
 	// [UTLS SECTION START]
-	if !c.config.InsecureSkipTimeVerify {
+	// (a session installed through MakeClientSessionState may carry no certificates at all)
+	if !c.config.InsecureSkipTimeVerify && len(session.peerCertificates) > 0 {
 		if c.config.time().After(session.peerCertificates[0].NotAfter) {
 			// Expired certificate, delete the entry.
 			c.config.ClientSessionCache.Put(cacheKey, nil)
@@ -460,7 +461,7 @@ func (c *Conn) loadSession(hello *clientHelloMsg) (
 	}
 	// [UTLS SECTION END]
 	if !c.config.InsecureSkipVerify {
-		if len(session.verifiedChains) == 0 {
+		if len(session.verifiedChains) == 0 || len(session.peerCertificates) == 0 { // [uTLS] also: no certificates to check
 			// The original connection had InsecureSkipVerify, while this doesn't.
 			return nil, nil, nil, nil
 		}
